@@ -51,8 +51,17 @@ def run(ctx):
                        'lock held and the flag in memory clear, with the interest\'s pid and the caller\'s signal (same demand as C11 R-C11c), '
                        'and a live child is signalled; and reaping a terminating status stores that flag for the interest the status is routed '
                        'to, so the gate is closed from the moment the pid is reaped, before the exit notification reaches the popen module', floor=8)
+    ctx.rule('R-C19g', 'no signal after the child ended needs the end to be noticed: the function of the wait module the popen module spawns '
+                       'through is run with fork() returning in the parent, in the child, or failing, the child being free to end and the reaper '
+                       '(any thread, under the lock of the pid set) free to run whenever that lock is not held: from the moment fork() returns in '
+                       'the parent until the interest is in the pid set under the pid fork() returned, the set\'s lock is held without '
+                       'interruption (else the child is reaped with nobody to tell: its record stays "running" and close signals a pid that is '
+                       'gone; same demand as C11 R-C11b); the parent registers the interest exactly once under that pid and returns success '
+                       'with the lock released; the child runs the spawn function and never returns into the caller; a failed fork is '
+                       'reported negative with nothing in the set and the lock released (a lock left held blocks the kill helper for good)', floor=5)
     ctx.section(lambda c: __import__('ivy.rules.c11', fromlist=['x']).status_table(c, 'R-C19e'))
     ctx.section(kill_gate)
+    ctx.section(spawn_gate)
     ctx.section(dead_mark)
     ctx.section(wiring)
     ctx.section(escalation)
@@ -788,3 +797,114 @@ def dead_mark(ctx):
                           '(values the unit stores: %s); %s' % (name, dead if dead != [-1] else 'none',
                           'never routed' if not routed else ('%d of %d routed paths leave the flag untouched or clear it: the kill helper '
                           'would signal the reaped pid' % (len(bad), len(routed))) if bad else 'all %d routed paths' % len(routed)), fn=v.root.q)
+
+
+# ----------------------------------------------------------------------------
+# R-C19g
+# ----------------------------------------------------------------------------
+
+def spawn_gate(ctx):
+    """The clause `if the child has already ended ... no further signal is sent to its process id` presupposes that the end of
+    the child reaches the popen module (the exit notification releases the record; after close it cancels the kill timer).
+    R-C19a-d run iv_popen.c against a *model* of the spawn helper in which the interest is registered for the child from the
+    start.  Whether the real helper provides that is decided here, by running it: the child exists (and may end) from the
+    moment fork() returns in the parent; the reaper of any thread reaps it under the lock of the pid set and tells the
+    interest it finds under that pid, nobody otherwise.  So until the interest is in the set under the child's pid the lock
+    must not be available to the reaper.  Evaluated by value (lock and tree identities through wrappers, accessors, cached
+    addresses; the pid through locals, helpers, out-parameters), nothing about the shape of the helper is demanded."""
+    prog = ctx.prog
+    st = roots(ctx)
+    used = {}
+    for mode in ('r', 'w'):
+        for p in lifecycle(ctx, mode, [], None):
+            for e in p.m.log:
+                if e['kind'] == 'spawn':
+                    used.setdefault(e['name'], e['loc'])
+    helpers = {}
+    for nm in sorted(used):
+        f = prog.funcs.get(nm)
+        if f is not None and f.blocks and not f.static and f.file.endswith('.c') and not f.file.endswith(st['home']):
+            helpers[nm] = f
+    stray = sorted(nm for nm in used if nm not in helpers)
+    ctx.ob('R-C19g', 'submit:spawns-through-wait-module', bool(helpers) and not stray,
+           loc=(used[stray[0]] if stray else (sorted(used.values(), key=str)[0] if used else st['submit'].loc)),
+           detail='the child of a request is created by an exported function of the wait module, which is evaluated below (through: %s; not such a '
+                  'function: %s)' % (sorted(helpers) or 'nothing', stray or 'nothing'), fn=st['submit'].q)
+    if not helpers:
+        raise AnalysisBroken('spawn gate: submit spawns through no function of the wait module that has a body')
+    lid, setlocks = h19.set_lock_values(prog)
+    settrees = h19.set_tree_values(prog)
+    for nm, f in sorted(helpers.items()):
+        runs = h19.spawn_runs(prog, f, setlocks, settrees)
+        forked = [r for r in runs if r.fork is not None]
+        if not forked:
+            raise AnalysisBroken('spawn gate: %s never reaches fork()' % nm)
+        floc = forked[0].fork['loc']
+        parent = [r for r in forked if r.outcome == 'parent']
+        child = [r for r in forked if r.outcome == 'child']
+        fails = [r for r in forked if r.outcome == 'fails']
+        # -- atomicity of fork .. findable
+        gaps = [(r, g) for r in parent for g in r.gaps]
+        ctx.ob('R-C19g', '%s:child-findable-before-reapable' % nm, bool(parent) and not gaps, loc=(gaps[0][1]['loc'] if gaps else floc),
+               detail='from fork() returning in the parent until the interest is in the pid set under the child\'s pid, the lock of the pid set (%s) is '
+                      'held without interruption: the child may end at once and the reaper of another thread, which works under that lock, tells only '
+                      'an interest it finds; %s' % (lid or 'the unit takes no lock',
+                                                   ('%s (held: %s)' % (gaps[0][1]['what'], [show(l) for l in gaps[0][1]['held']] or 'nothing')) if gaps
+                                                   else '%d parent paths' % len(parent)),
+               fn=f.q, path=(h19.trail_text(gaps[0][0].trail) or None) if gaps else None)
+        # -- the parent registers the interest under the child's pid, once, and reports success
+        ok, dets = bool(parent), []
+        bad_r = None
+        for r in parent:
+            mine = [d for d in r.inserts if d['mine']]
+            good = [d for d in mine if d['set'] and d['pid'] == h19.NEW_PID and d['locked']]
+            pr = []
+            if r.end != 'done':
+                pr.append('the parent path ends in %s' % r.end)
+            if len(good) != 1 or len(mine) != 1:
+                pr.append('insertions of the interest: %s' % ([('pid field %s, %s, tree %s' % (show(d['pid']) if d['pid'] is not None else 'never written',
+                                                              'lock held' if d['locked'] else 'lock not held', show(d['tree']))) for d in mine] or 'none'))
+            if r.end == 'done' and not (r.ret is not None and r.ret[0] != 'neg' and not (is_i(r.ret) and r.ret[1] < 0)):
+                pr.append('returns %s although the child was created' % (show(r.ret) if r.ret is not None else 'nothing'))
+            if r.locked_at_end:
+                pr.append('returns with the lock of the pid set held')
+            if pr and bad_r is None:
+                bad_r = r
+            if pr:
+                ok = False
+                dets += pr
+        iloc = ([d['loc'] for r in parent for d in r.inserts if d['mine']] or [floc])[0]
+        ctx.ob('R-C19g', '%s:child-registered-under-its-pid' % nm, ok, loc=iloc,
+               detail='in the parent the interest is inserted into the pid set exactly once, holding the pid fork() returned at that moment (the set is '
+                      'ordered by it) and with the set\'s lock held; success is returned and the lock released; %s' % ('; '.join(dets[:3]) or '%d parent paths' % len(parent)),
+               fn=f.q, path=(h19.trail_text(bad_r.trail) or None) if bad_r is not None else None)
+        # -- the child
+        ok, dets = bool(child), []
+        want = '(*%s)' % show(h19.SPAWN_FN)
+        for r in child:
+            calls = [e for e in r.m.log if e['kind'] == 'call' and e['name'] == want]
+            if len(calls) != 1 or calls[0]['args'] != [h19.SPAWN_COOKIE]:
+                ok = False
+                dets.append('the spawn function is called %d times%s' % (len(calls), (' with %s' % [show(a) for a in calls[0]['args']]) if calls else ''))
+            if r.end == 'done':
+                ok = False
+                dets.append('the child returns into the caller of the helper (two processes go on running the parent\'s loop)')
+            if any(d['mine'] for d in r.inserts):
+                ok = False
+                dets.append('the child inserts the interest into its copy of the set')
+        ctx.ob('R-C19g', '%s:child-runs-spawn-function' % nm, ok, loc=floc,
+               detail='in the child the spawn function is called once with the caller\'s cookie and the path never returns to the caller; %s' % '; '.join(dets[:2]), fn=f.q)
+        # -- fork failed
+        ok, dets = bool(fails), []
+        for r in fails:
+            if r.end != 'done' or r.ret is None or not (r.ret[0] == 'neg' or (is_i(r.ret) and r.ret[1] < 0)):
+                ok = False
+                dets.append('returns %s' % (show(r.ret) if r.ret is not None else r.end))
+            if any(d['mine'] for d in r.inserts):
+                ok = False
+                dets.append('the interest is inserted into the pid set although there is no child')
+            if r.locked_at_end:
+                ok = False
+                dets.append('returns with the lock of the pid set held: the kill helper and the reaper block for good')
+        ctx.ob('R-C19g', '%s:fork-fails:reported-and-unlocked' % nm, ok, loc=floc,
+               detail='when fork() fails a negative value is returned, nothing is in the pid set and the set\'s lock is released; %s' % '; '.join(sorted(set(dets))[:2]), fn=f.q)
